@@ -45,7 +45,7 @@ CHECKS.update({
  "C13": ("M", TECH_M, "z3 decides the code-level causes of day-to-day jumps: Julian Day = day number + const - gmt/24 (so consecutive dates are exactly 1 apart over every month/year/leap boundary), RA interpolation on the unwrapped triple in every wrap case, Dhuhr within 10 s of the interpolated transit, the unrounded clock conversion is truncation for all 7 keys, Astro::new total with sidereal time = mean sidereal formula within 0.02 deg for every real Julian Day of 1600..2399.",
          "PARTIAL: the numeric second-difference bounds depend on the smoothness of the real ephemeris: not solver-decided, checked by a native smoothness sweep over month/year/century ends, leap days, equinoxes and the J2000.0 epoch (all six times) and the ephemeris assumption sweep."),
  "C20": ("M", TECH_M, "z3 decides that the GMT offset flows only into JulianDay::new and shifts the Julian Day by exactly -d/24, that longitude enters the transit only through sid + lon (congruence step) that Dhuhr tracks the interpolated transit within 10 s, and that Astro::new's sidereal time is the mean sidereal formula of the Julian Day within 0.02 deg.",
-         "PARTIAL: the end-to-end +-10 s covariance of all seven times against the real ephemeris is outside the claim."),
+         "PARTIAL: the end-to-end +-10 s covariance of all seven times against the real ephemeris is outside the solver claim; it is sampled by a native metamorphic judge (natural and far-off clock zones) on every run, which carries one recorded known finding (civil-date-wrap: an event crossing civil midnight under the shift is the neighbouring solar day's event)."),
 })
 CHECKS.update({
  "C15": ("M", TECH_M + " with a message-level model of std::thread::scope / mpsc (every arrival order of the workers' messages is a symbolic path)",
